@@ -215,6 +215,21 @@ impl Monitor for C16 {
                     ctx.violation(format!("{which}: candidate preference order not preserved"), format!("package {}: live {:?} snapshot {:?}", pk.name, live_order, snap_order));
                 }
             }
+            // (3b) union members in the order the live provider lists them (the ranking of a
+            // union requirement's candidates starts with that order)
+            for (un, members) in sn.version_set_unions.iter() {
+                let got: Vec<u32> = match catch(|| sn.provider().version_sets_in_union(un).map(|v| v.0).collect::<Vec<u32>>()) {
+                    Caught::Ok(v) => v,
+                    _ => continue,
+                };
+                let _ = members;
+                ctx.rep.count("union-member-orders-compared");
+                if let Some(live) = u.unions.get(un.0 as usize) {
+                    if &got != live {
+                        ctx.violation(format!("{which}: union members not listed in the live provider's order"), format!("union {}: live {:?} snapshot {:?}", un.0, live, got));
+                    }
+                }
+            }
             // (4) additions
             let r = catch(|| {
                 let mut prov = sn.provider();
